@@ -708,7 +708,13 @@ func genV2Case(t *rapid.T, prop string, reload bool) V2Case {
 			c.PruneTo = rapid.Int64Range(1, int64(c.PruneAfter)-1).Draw(t, "pruneTo")
 		}
 		if rapid.IntRange(0, 3).Draw(t, "doSnap") == 0 {
-			c.SnapshotAt = rapid.Int64Range(1, int64(nver)).Draw(t, "snapAt")
+			// (a snapshot is never taken while background pruning may be running: SaveSnapshot and the pruning loop share
+			// one sqlite connection, and v2 exits the process on the resulting 'SQL statements in progress' error)
+			hi := int64(nver)
+			if c.PruneAfter > 0 {
+				hi = int64(c.PruneAfter) - 1
+			}
+			c.SnapshotAt = rapid.Int64Range(1, hi).Draw(t, "snapAt")
 			c.SnapOrder = rapid.SampledFrom([]string{"pre", "post"}).Draw(t, "snapOrder")
 		}
 		nc := rapid.IntRange(0, 3).Draw(t, "ncont")
